@@ -140,6 +140,9 @@ def check(run):
         if not callers and not boundin:
             okc, why = False, '%s has no protected entry' % orr.norm
     run.check(okc, 'R4', 'parse-error-closes', orr.norm, orr.loc(), why or 'a parse failure is not caught and turned into close_connection()', 'every entry into the parsing code is inside a function-try-block that closes the connection')
+    hs = [orr] if protected(orr) else [cf for cf, c in fx.callers.get(orr.usr, []) if protected(cf)]
+    for h_ in hs[:1]:
+        engines.throws_are_caught(run, h_, [fx.fn1('sim::parse_request')] + [g_ for g_ in [orr] if g_ is not h_])
     run.clause('content-length agrees with the body generated: in register_content the length handed to send_response equals the length handed to the generator')
     rc = fx.fn1(H + '::register_content')
     lams = fx.lambdas_in(rc)
